@@ -539,6 +539,8 @@ class PathResult:
         self.effects = []           # non-noise expression statements / opaque statements executed on the path
         self.tests = []             # (test node, truth) decided on the path
         self.fell_off = False
+        self.calls = []             # expression statements that are calls, substituted: dict(call, seq, node)
+        self.ended = None           # 'return' | 'raise' | 'continue' | 'break' | None (fell off the end)
         self.updates = []           # keyed stores into containers: dict(kind='storeall'|'incall'|'store1'|'inc1', target, over, key, value, node), expressions substituted
         self.unknown_test = None    # the undecided test expression (of an if statement or a conditional expression)
         self.assumed = []           # (test with the path's assignments substituted, assumed truth) for tests forked on
@@ -694,14 +696,16 @@ class PathEval:
                 else:
                     comp = ast.ListComp(elt=ast.Name('__flat', ast.Load()), generators=[ast.comprehension(target=tgt, iter=it, ifs=[], is_async=0),
                                                                                       ast.comprehension(target=ast.Name('__flat', ast.Store()), iter=ast.Tuple([a[1] for a in appends], ast.Load()), ifs=[], is_async=0)])
-                self.env = outer
+                self.env.clear()
+                self.env.update(outer)
                 self.env[acc] = ast.fix_missing_locations(comp)
                 for al, _ in aliases:
                     self.env[al] = self.env[acc]
                 for k in tnames:
                     self.env[k] = None
                 return True
-        self.env = outer
+        self.env.clear()
+        self.env.update(outer)
         return False
 
     def _store_loop(self, s: ast.For) -> bool:
@@ -725,10 +729,10 @@ class PathEval:
         self.env[t] = None
         return True
 
-    def run(self) -> PathResult:
+    def run(self, body=None) -> PathResult:
         self.res = PathResult()
         self.res.env = self.env
-        done = self.block([s for s in self.fn.node.body])
+        done = self.block([s for s in (self.fn.node.body if body is None else body)])
         if not done and self.res.unknown is None:
             self.res.fell_off = True
         return self.res
@@ -771,10 +775,17 @@ class PathEval:
                 return None
             if isinstance(s, ast.Return):
                 self.res.returned = self.subst(s.value) if s.value is not None else ast.Constant(None)
+                self.res.ended = 'return'
                 return 'end'
             if isinstance(s, ast.Raise):
                 self.res.raised = s
+                self.res.ended = 'raise'
                 return 'end'
+            if isinstance(s, (ast.Continue, ast.Break)):
+                self.res.ended = 'continue' if isinstance(s, ast.Continue) else 'break'
+                return 'end'
+            if isinstance(s, ast.Delete):
+                return None
             if isinstance(s, ast.If):
                 v = self.truth(s.test)
                 if v is None and self.other is not None:
@@ -836,6 +847,8 @@ class PathEval:
                 return None
             if isinstance(s, ast.Expr):
                 self.res.effects.append(s)
+                if isinstance(s.value, ast.Call):
+                    self.res.calls.append(dict(call=self.subst(s.value), seq=self.seq, node=s))
                 return None
             # loops / with / try / anything else: opaque; names bound inside are unknown afterwards
             self.res.effects.append(s)
@@ -848,7 +861,7 @@ class PathEval:
         return None
 
 
-def run_paths(fn: Func, subject_pred, value: str, max_forks: int = 3):
+def run_paths(fn: Func, subject_pred, value: str, max_forks: int = 3, body=None, env=None):
     """All paths of fn for the subject value, forking on tests that do not depend on the subject.
     Returns [(assumptions, PathResult)], assumptions = [(test node, truth)]; None when more than max_forks tests would have to be forked."""
     out = []
@@ -861,7 +874,10 @@ def run_paths(fn: Func, subject_pred, value: str, max_forks: int = 3):
 
         def other(t, pe, table=table):
             return table.get(id(t))
-        res = PathEval(fn, subject_pred, value, other).run()
+        pe = PathEval(fn, subject_pred, value, other)
+        if env:
+            pe.env.update(env)
+        res = pe.run(body)
         if res.unknown is not None and res.unknown_test is not None and id(res.unknown_test) not in table:
             todo.append(assume + [(res.unknown_test, True)])
             todo.append(assume + [(res.unknown_test, False)])
